@@ -188,3 +188,77 @@ package mobius
 //@   property C07
 //@   requires am.accountDir == ROOT
 //@   before call os.Remove assert inroot(arg0)
+
+// ---------------------------------------------------------------------------------
+// C19: the message board.  Write prepends the post, persists the new board and only then reports
+// len(p); all of it under the store's mutex, so concurrent posts are serialised and none is lost.
+// Read serves the board through a cursor; the cursor and the data are touched under the mutex only.
+
+//@ define wire_FlatNews(f) := bytes(f.data)
+
+//@ func (f *FlatNews) Write(p []byte) (n int, err error)
+//@   requires f != nil
+//@   ensures bytes(f.data) == cat(old(bytes(p)), old(bytes(f.data)))
+//@   ensures err == nil ==> n == len(p) && callres("os.Rename") == nil
+//@   before call os.WriteFile assert locked(f, "mu") && bytes(arg1) == cat(old(bytes(p)), old(bytes(f.data)))
+//@   before call os.Rename assert locked(f, "mu") && callres("os.WriteFile") == nil
+//@   guarded_by f.mu: data, readOffset
+
+//@ func (f *FlatNews) Read(p []byte) (n int, err error)
+//@   cursor wire_FlatNews readOffset
+//@   guarded_by f.mu: data, readOffset
+
+//@ func (f *FlatNews) Seek(offset int64, whence int) (n int64, err error)
+//@   requires f != nil
+//@   ensures f.readOffset == offset && err == nil
+//@   guarded_by f.mu: data, readOffset
+
+//@ func (a *Agreement) Read(p []byte) (n int, err error)
+//@   cursor wire_Agreement readOffset
+//@   guarded_by a.mu: data, readOffset
+//@ define wire_Agreement(a) := bytes(a.data)
+
+//@ func (a *Agreement) Seek(offset int64, whence int) (n int64, err error)
+//@   requires a != nil
+//@   ensures a.readOffset == offset && err == nil
+//@   guarded_by a.mu: data, readOffset
+
+// The post is acknowledged and announced only after the board accepted it; the reply to
+// get-messages carries everything ReadAll returned from the board itself.
+
+//@ func HandleTranOldPostNews(cc *hotline.ClientConn, t *hotline.Transaction) (res []hotline.Transaction)
+//@   before call (*hotline.ClientConn).NewReply assert callres("(io.ReadWriteSeeker).Write", 1) == nil
+//@   before call (*hotline.ClientConn).SendAll assert callres("(io.ReadWriteSeeker).Write", 1) == nil
+
+//@ func HandleGetMsgs(cc *hotline.ClientConn, t *hotline.Transaction) (res []hotline.Transaction)
+//@   before call io.ReadAll assert arg0 == cc.Server.MessageBoard
+//@   before call hotline.NewField assert same(arg1, callres("io.ReadAll", 0))
+//@   before call io.ReadAll assert ghost(heldlocks) > 0
+
+// ---------------------------------------------------------------------------------
+// C18: threaded news.  PostArticle: the new ID is larger than every ID collected from the category,
+// the article is stored under it with the requested parent and linked after the previously newest
+// one; nothing else in the category map changes; the tree is written before success is reported.
+
+//@ func (n *ThreadedNewsYAML) PostArticle(newsPath []string, parentArticleID uint32, article hotline.NewsArtData) (err error)
+//@   property C18
+//@   requires n != nil
+//@   before call (encoding/binary.bigEndian).PutUint32#2 assert forall(j, 0, len(keys), 0 <= keys[j] && keys[j] < 4294967295) ==> forall(j, 0, len(keys), keys[j] <= arg2)
+//@   ensures len(newsPath) > 0 ==> has(cat.Articles, nextID)
+//@   ensures len(newsPath) > 0 ==> u32(bytes(get(cat.Articles, nextID).ParentArt)) == parentArticleID
+//@   before call (encoding/binary.bigEndian).PutUint32#3 assert callarg("(encoding/binary.bigEndian).PutUint32#2", 2) < 4294967295 ==> arg2 == callarg("(encoding/binary.bigEndian).PutUint32#2", 2) + 1
+//@   ensures len(newsPath) > 0 ==> forall(k, 0, 4294967296, k != nextID ==> has(cat.Articles, k) == has_old(cat.Articles, k) && get(cat.Articles, k) == get_old(cat.Articles, k))
+//@   ensures len(newsPath) > 0 ==> err == callres("(*mobius.ThreadedNewsYAML).writeFile")
+//@   loop 1 modifies nothing
+//@   before call (*mobius.ThreadedNewsYAML).writeFile assert locked(n, "mu")
+//@   guarded_by n.mu: ThreadedNews
+
+//@ func (n *ThreadedNewsYAML) DeleteArticle(newsPath []string, articleID uint32, recursive bool) (err error)
+//@   property C18
+//@   requires n != nil
+//@   ensures len(newsPath) > 0 ==> !has(cat.Articles, articleID) && err == callres("(*mobius.ThreadedNewsYAML).writeFile")
+//@   ensures len(newsPath) > 0 ==> forall(k, 0, 4294967296, k != articleID ==> has(cat.Articles, k) == has_old(cat.Articles, k) && get(cat.Articles, k) == get_old(cat.Articles, k))
+//@   before call (*mobius.ThreadedNewsYAML).writeFile assert locked(n, "mu")
+
+//@ func (n *ThreadedNewsYAML) writeFile() (err error)
+//@   modifies nothing
